@@ -27,6 +27,7 @@ HUNKISH = [
     ' context', '--- a/file', '+++ b/file', '\\ No newline at end of file',
     'diff --git a/x b/x', 'index 123..456 100644', 'Binary files differ',
     'literal 123', 'delta 7', 'GIT binary patch', '+#diffx: version=1.0',
+    '+    # retry later...', ' and so on...', '...', '-...',
 ]
 SPECIAL = [
     '﻿bom first', 'mid﻿bom', 'nul\x00byte', 'lone\rcr',
